@@ -359,7 +359,7 @@ def run(report, index, tier):
         r4.indent_str = indent_str
         hn = tab[K('Newline')]
         hon = tab[K('OptionalNewline')]
-        for level in (0, 1, 3):
+        for level in (0, 1, 2, 3, 7, 8, 15, 16, 17, 31, 32, 33, 64, 100):
             hn.obj._level = level
             got = T.emit(hn, 'Block', 'a', 'b', None)
             want = ['\n'] + ([indent_str * level] if indent_str * level
